@@ -27,7 +27,7 @@ def compile_all(th, items):
 def run(chk):
     th = build("plain")
     tha = build("asan")
-    n = 1500 if chk.thorough else 220
+    n = 6000 if chk.thorough else 220
     gen_progs = sem.generate(chk.seed + 3, n, canon=False, profile="calls") + sem.generate(chk.seed + 4, n // 2, canon=True)
     items = [(u[0], u[1], u[2]) for u in unusual.sources()]
     items += [("gen%d" % p["seed"], {"files": p["files"], "main": p["main"]}, [len(rt["params"]) for rt in p["ast"]["routines"]])
